@@ -83,6 +83,7 @@ package keeper
 //@   props C27,C12
 //@   modifies bigv
 //@   ensures [stake-bin] result.i != nil && bigv[result.i] == scaled(old(bigv[multiplier.i]), old(bigv[relays.i]), weightOf(binOf(old(bigv[stake.i]), nFloor(ctx), nCeil(ctx)), nExp(ctx), nWM(ctx)))
+//@   ensures [bigv-kept] forall p int {bigv[p]} :: isold(p) ==> bigv[p] == old(bigv[p])
 
 // ---- C25: slashing ---------------------------------------------------------------------------
 // call events of the primitives simpleSlash is built from
@@ -113,10 +114,6 @@ package keeper
 //@   ensures result == nil ==> burnN == old(burnN) + 1 && burnedAmt == old(bigv[amt.i])
 //@   ensures result != nil ==> burnN == old(burnN)
 
-//@ func (Keeper).ForceValidatorUnstake
-//@   trusted call event: jails the node and queues it to unstake
-//@   modifies forceN
-//@   ensures forceN == old(forceN) + 1
 //@ func (Keeper).LegacyForceValidatorUnstake
 //@   trusted call event: force-unstakes the node
 //@   modifies forceN
@@ -226,15 +223,18 @@ package keeper
 
 //@ ghost siHas map[Bytes]bool
 //@ ghost siJailedUntil map[Bytes]int
+//@ ghost siMissed map[Bytes]int
+//@ ghost siIndex map[Bytes]int
 //@ func (Keeper).GetValidatorSigningInfo
 //@   trusted store lookup + codec: the signing info is a function of the state
 //@   pure_fn
 //@   ensures found == siHas[bytes(addr)]
-//@   ensures found ==> unixNano(info.JailedUntil) == siJailedUntil[bytes(addr)]
+//@   ensures found ==> unixNano(info.JailedUntil) == siJailedUntil[bytes(addr)] && info.MissedBlocksCounter == siMissed[bytes(addr)] && info.Index == siIndex[bytes(addr)]
 
 //@ func (Keeper).SetWaitingValidator
 //@   trusted KV-store effect only: marks the node as waiting to unstake
 //@   modifies valWaiting
+//@   ensures valWaiting == old(valWaiting)[bytes(val.Address) := true]
 
 // signer is the operator, or the output address when one is set
 //@ pure unjailSigner(s Bytes, a Bytes, outNil bool, out Bytes) bool = addrEq(s, a) || (!outNil && addrEq(s, out))
@@ -365,3 +365,204 @@ package keeper
 //@   modifies bankXferN, bankXferOK, bankXferFrom, bankXferTo, bankXferCoins
 //@   ensures [one-transfer] bankXferN == old(bankXferN) + 1 && bankXferFrom == bytes(fromAddress) && bankXferTo == bytes(toAddress) && singleAmt(bankXferCoins) == old(bigv[amount.i]) && old(bigv[amount.i]) >= 0
 //@   ensures [outcome] (result == nil) == bankXferOK
+
+// ---- C26: rewards and fees are split without creating or losing coins --------------------------
+//@ pure nDAO(c Iface) int
+//@ pure nProposer(c Iface) int
+//@ func (Keeper).DAOAllocation
+//@   trusted parameter getter: a deterministic function of the context's state
+//@   pure_fn
+//@   ensures res == nDAO(ctx)
+//@ func (Keeper).ProposerAllocation
+//@   trusted parameter getter: a deterministic function of the context's state
+//@   pure_fn
+//@   ensures res == nProposer(ctx)
+
+// reward -> (node part, fee-collector part): the two parts add up to the reward exactly;
+// the fee-collector part is trunc(r * dao% + r * proposer%) in 18-decimal fixed point
+//@ func (Keeper).splitRewards
+//@   props C26,C12
+//@   modifies bigv
+//@   ensures [nothing-lost] nodeReward.i != nil && feesCollected.i != nil && bigv[nodeReward.i] + bigv[feesCollected.i] == old(bigv[reward.i])
+//@   ensures [fee-part] bigv[feesCollected.i] == go_div(rhe(old(bigv[reward.i]) * 1000000000000000000 * go_div(nDAO(ctx) * 1000000000000000000, 100)) + rhe(old(bigv[reward.i]) * 1000000000000000000 * go_div(nProposer(ctx) * 1000000000000000000, 100)), 1000000000000000000)
+//@   ensures [bigv-kept] forall p int {bigv[p]} :: isold(p) ==> bigv[p] == old(bigv[p])
+
+// collected fees -> (DAO part, proposer part): add up exactly; the DAO part is trunc(fees * dao/(dao+proposer))
+//@ func (Keeper).splitFeesCollected
+//@   props C26,C12
+//@   modifies bigv
+//@   ensures [parts-add-up] daoCut.i != nil && proposerCut.i != nil && bigv[daoCut.i] + bigv[proposerCut.i] == old(bigv[feesCollected.i])
+//@   ensures [dao-part] bigv[daoCut.i] == go_div(rhe(old(bigv[feesCollected.i]) * 1000000000000000000 * rhe(go_div(nDAO(ctx) * 1000000000000000000 * 1000000000000000000 * 1000000000000000000, nDAO(ctx) * 1000000000000000000 + nProposer(ctx) * 1000000000000000000))), 1000000000000000000)
+//@   ensures [bigv-kept] forall p int {bigv[p]} :: isold(p) ==> bigv[p] == old(bigv[p])
+
+// the callback the split is given: specified as a payment log (the real callbacks mint / send)
+//@ ghost cbN int
+//@ ghost cbSum int
+//@ ghost cbLastAddr Bytes
+//@ ghost cbLastAmt int
+// every payment is either a delegator's exact share trunc(rewards * share%) to that delegator, or
+// the remainder to the primary recipient (checked at every call site inside SplitNodeRewards)
+//@ func SplitNodeRewards$shareRewardsCallback
+//@   trusted callback specification (payment log): what SplitNodeRewards may assume of the function it is handed
+//@   params addr coins
+//@   requires [exact-share-or-remainder] (bytes(addr) == bytes(primaryRecipient) && bigv[coins.i] == bigv[remains.i]) || (exists j int :: 0 <= j && j < len(normalizedDelegators) && addr == normalizedDelegators[j].Address && bigv[coins.i] == go_div(rhe(bigv[rewards.i] * 1000000000000000000 * (normalizedDelegators[j].RewardShare * 10000000000000000)), 1000000000000000000))
+//@   requires [positive] bigv[coins.i] > 0
+//@   modifies cbN, cbSum, cbLastAddr, cbLastAmt
+//@   ensures cbN == old(cbN) + 1 && cbSum == old(cbSum) + bigv[coins.i] && cbLastAddr == bytes(addr) && cbLastAmt == bigv[coins.i]
+
+//@ func x/nodes/types.NormalizeRewardDelegators
+//@   trusted iteration over a Go map (order unspecified): valid shares, each positive
+//@   pure_fn
+//@   ensures result1 == nil ==> fresh(result0)
+
+// SplitNodeRewards: payments + what remains == the reward at every step, so on success nothing of
+// the reward is lost; the remainder (when positive) goes to the primary recipient
+//@ func SplitNodeRewards
+//@   props C26,C12
+//@   reveal go_div
+//@   modifies cbN, cbSum, cbLastAddr, cbLastAmt, bigv
+//@   ensures [no-coins-lost] result == nil ==> cbSum - old(cbSum) >= old(bigv[rewards.i])
+//@   ensures [nothing-on-error] result != nil ==> cbN == old(cbN) && cbSum == old(cbSum)
+//@   ensures [bigv-kept] forall p int {bigv[p]} :: isold(p) ==> bigv[p] == old(bigv[p])
+//@   loop 0 invariant 0 - 1 <= rangeindex && rangeindex < len(normalizedDelegators) && remains.i != nil && rewards.i != nil && bigv[rewards.i] > 0
+//@   loop 0 invariant cbSum - old(cbSum) + bigv[remains.i] == old(bigv[rewards.i]) && bigv[rewards.i] == old(bigv[rewards.i])
+//@   loop 0 invariant forall p int {bigv[p]} :: isold(p) ==> bigv[p] == old(bigv[p])
+
+// mint: exactly `amount` is minted into the node pool and then sent from the pool to the address
+//@ func (Keeper).mint
+//@   props C26,C19,C17,C12
+//@   modifies bankMintN, bankMintTo, bankMintCoins, bankSendN, bankSendTo, bankSendFrom, bankSendCoins, bankSendOK
+//@   ensures [mints-amount] bankMintN == old(bankMintN) + 1 && bankMintTo == "staked_tokens_pool" && singleAmt(bankMintCoins) == old(bigv[amount.i])
+//@   ensures [pays-out-what-it-minted] bankSendN != old(bankSendN) ==> bankSendN == old(bankSendN) + 1 && bankSendFrom == "staked_tokens_pool" && bankSendTo == bytes(address) && bankSendCoins == bankMintCoins
+
+// the relay reward: multiplier x relays, weighted by the stake bin once reward scaling is active;
+// split into the servicer's part and the fee collector's part with nothing left over
+//@ pure chainMult(c Iface, chain Str) int
+//@ func (Keeper).GetChainSpecificMultiplier
+//@   trusted parameter lookup (per-chain multiplier map, default multiplier): a function of the context's state and the chain
+//@   modifies bigv
+//@   ensures result.i != nil && fresh(result.i) && bigv[result.i] == chainMult(ctx, chain)
+//@   ensures forall p int {bigv[p]} :: isold(p) ==> bigv[p] == old(bigv[p])
+//@ pure rewardOf(c Iface, chain Str, relays int, stake int) int = ite(global(codec.UpgradeFeatureMap)["RSCAL"] != 0 && ctxHeight(c) >= global(codec.UpgradeFeatureMap)["RSCAL"], scaled(chainMult(c, chain), relays, weightOf(binOf(stake, nFloor(c), nCeil(c)), nExp(c), nWM(c))), chainMult(c, chain) * relays)
+//@ pure feePartOf(c Iface, r int) int = go_div(rhe(r * 1000000000000000000 * go_div(nDAO(c) * 1000000000000000000, 100)) + rhe(r * 1000000000000000000 * go_div(nProposer(c) * 1000000000000000000, 100)), 1000000000000000000)
+//@ func (Keeper).CalculateRelayReward
+//@   props C26,C27,C12
+//@   modifies bigv
+//@   ensures [fee-part] bigv[feesCollected.i] == feePartOf(ctx, rewardOf(ctx, chain, old(bigv[relays.i]), old(bigv[stake.i])))
+//@   ensures [parts-add-up] nodeReward.i != nil && feesCollected.i != nil && bigv[nodeReward.i] + bigv[feesCollected.i] == rewardOf(ctx, chain, old(bigv[relays.i]), old(bigv[stake.i]))
+//@   ensures [bigv-kept] forall p int {bigv[p]} :: isold(p) ==> bigv[p] == old(bigv[p])
+
+// the payment callbacks handed to SplitNodeRewards: each invocation pays exactly the share to the recipient
+//@ func (Keeper).RewardForRelaysPerChain$1
+//@   props C26,C12
+//@   modifies bankMintN, bankMintTo, bankMintCoins, bankSendN, bankSendTo, bankSendFrom, bankSendCoins, bankSendOK
+//@   ensures [mints-the-share] bankMintN == old(bankMintN) + 1 && singleAmt(bankMintCoins) == old(bigv[share.i])
+//@   ensures [to-the-recipient] bankSendN != old(bankSendN) ==> bankSendTo == bytes(recipient) && bankSendCoins == bankMintCoins
+//@ func (Keeper).blockReward$1
+//@   props C26,C12
+//@   modifies all
+//@   ensures [sends-the-share] bankXferN == old(bankXferN) + 1 && bankXferTo == bytes(recipient) && singleAmt(bankXferCoins) == old(bigv[share.i])
+
+// ---- C25: slash() (double-sign and downtime path): same rules as simpleSlash --------------------
+//@ pure slashAmt(power int, factor int) int = go_div(rhe(power * 1000000 * 1000000000000000000 * factor), 1000000000000000000)
+//@ func (Keeper).slash
+//@   props C25,C19,C12
+//@   modifies all
+//@   logs slashCallN == old(slashCallN) + 1
+//@   logs slashCallAddr == bytes(addr)
+//@   logs slashCallPower == power
+//@   logs slashCallFactor == old(bigv[slashFactor.i])
+//@   ensures [at-most-stake] removeN != old(removeN) ==> removeN == old(removeN) + 1 && old(valHas[bytes(addr)]) && removedAmt == max(0, min(slashAmt(power, old(bigv[slashFactor.i])), old(valStake[bytes(addr)]))) && removedAmt <= max(0, old(valStake[bytes(addr)]))
+//@   ensures [burn-equals-removed] burnN != old(burnN) ==> burnN == old(burnN) + 1 && removeN == old(removeN) + 1 && burnedAmt == removedAmt
+//@   ensures [no-burn-without-remove] removeN == old(removeN) ==> burnN == old(burnN)
+//@   ensures [below-minimum-forced] burnN != old(burnN) && old(valStake[bytes(addr)]) - removedAmt < nMinStake(ctx) ==> forceN == old(forceN) + 1
+//@   ensures [no-force-otherwise] forceN != old(forceN) ==> burnN != old(burnN) && old(valStake[bytes(addr)]) - removedAmt < nMinStake(ctx)
+//@   ensures [future-infraction-ignored] infractionHeight > ctxHeight(ctx) ==> removeN == old(removeN) && burnN == old(burnN)
+
+// double-sign evidence: whether it is handled depends on chain state, the evidence and BLOCK time only
+//@ pure nMaxEvidenceAge(c Iface) int
+//@ func (Keeper).MaxEvidenceAge
+//@   trusted parameter getter: a deterministic function of the context's state
+//@   pure_fn
+//@   ensures res == nMaxEvidenceAge(ctx)
+//@ func (Keeper).validateDoubleSign
+//@   props C25,C12
+//@   modifies bigv
+//@   ensures [known-staked-node] err == nil ==> old(valHas[bytes(addr)]) && old(valStatusG[bytes(addr)]) != 0 && old(siHas[bytes(addr)])
+//@   ensures [not-too-old] err == nil ==> ctxBlockTimeNs(ctx) - unixNano(timestamp) <= nMaxEvidenceAge(ctx)
+//@   ensures [complete] old(valHas[bytes(addr)]) && old(valStatusG[bytes(addr)]) != 0 && old(siHas[bytes(addr)]) && ctxBlockTimeNs(ctx) - unixNano(timestamp) <= nMaxEvidenceAge(ctx) ==> err == nil
+
+// ---- C25: jailing -----------------------------------------------------------------------------
+// JailValidator: a known node that is not jailed yet and not Unstaked (i.e. Staked OR Unstaking)
+// gets its record rewritten with the jailed flag set; nothing else is written
+//@ ghost jailCallN int
+//@ ghost jailCallAddr Bytes
+//@ func (Keeper).JailValidator
+//@   props C25,C12
+//@   modifies lastSetVal, lastSetValStake, setValN, lastSetValAddr, bigv
+//@   logs jailCallN == old(jailCallN) + 1
+//@   logs jailCallAddr == bytes(addr)
+//@   ensures [jails-staked-and-unstaking] old(valHas[bytes(addr)]) && !old(valJailedG[bytes(addr)]) && old(valStatusG[bytes(addr)]) != 0 ==> setValN == old(setValN) + 1 && lastSetVal.Jailed && lastSetValAddr == bytes(addr) && lastSetValStake == old(valStake[bytes(addr)]) && lastSetVal.Status == old(valStatusG[bytes(addr)])
+//@   ensures [writes-only-to-jail] setValN != old(setValN) ==> lastSetVal.Jailed && lastSetValAddr == bytes(addr)
+//@   ensures [bigv-kept] forall p int {bigv[p]} :: isold(p) ==> bigv[p] == old(bigv[p])
+
+// forced unstake (stake fell below the minimum / jailed too long): jail + queue for unstaking at
+// the session boundary; no coins move here
+//@ func (Keeper).ForceValidatorUnstake
+//@   props C25,C24,C12
+//@   modifies lastSetVal, lastSetValStake, setValN, lastSetValAddr, bigv, valWaiting, jailCallN, jailCallAddr
+//@   logs forceN == old(forceN) + 1
+//@   ensures [jailed] jailCallN == old(jailCallN) + 1 && jailCallAddr == bytes(validator.Address)
+//@   ensures [queued] result == nil && valWaiting == old(valWaiting)[bytes(validator.Address) := true]
+
+// downtime: signing info written back for every known node; crossing the missed-blocks threshold
+// slashes (by the downtime fraction of the node's power), jails, and sets JailedUntil = BLOCK time + jail duration
+//@ ghost slashCallN int
+//@ ghost slashCallAddr Bytes
+//@ ghost slashCallPower int
+//@ ghost slashCallFactor int
+//@ ghost siSetN int
+//@ ghost lastSetSI x/nodes/types.ValidatorSigningInfo
+//@ ghost lastSetSIAddr Bytes
+//@ func (Keeper).SetValidatorSigningInfo
+//@   trusted call event only: records the signing info written (store + codec not modelled)
+//@   modifies siSetN, lastSetSI, lastSetSIAddr
+//@   ensures siSetN == old(siSetN) + 1 && lastSetSI == info && lastSetSIAddr == bytes(addr)
+//@ func (Keeper).valMissedAt
+//@   trusted store read of the missed-block bit array: a function of the state
+//@   pure_fn
+//@   ensures missed == missedBit(ctx, bytes(addr), index)
+//@ func (Keeper).SetValidatorMissedAt
+//@   trusted KV-store effect only (missed-block bit array)
+//@ func (Keeper).clearValidatorMissed
+//@   trusted KV-store effect only (missed-block bit array)
+//@ pure missedBit(c Iface, a Bytes, i int) bool
+//@ pure missedAfter(m int, prev bool, signed bool, reset bool) int = ite(reset, 0, m) + ite(!prev && !signed, 1, ite(prev && signed, 0 - 1, 0))
+//@ func (Keeper).handleValidatorSignature
+//@   props C25,C12
+//@   modifies all
+//@   ensures [punishment-complete] slashCallN != old(slashCallN) ==> slashCallN == old(slashCallN) + 1 && slashCallAddr == bytes(addr) && slashCallPower == power && slashCallFactor == old(bigv[slashFractionDowtime.i]) && jailCallAddr == bytes(addr) && lastSetSIAddr == bytes(addr) && unixNano(lastSetSI.JailedUntil) == ctxBlockTimeNs(ctx) + downtimeJailDuration && lastSetSI.MissedBlocksCounter == 0
+//@   ensures [slash-only-known-node] slashCallN != old(slashCallN) ==> old(valHas[bytes(addr)]) && old(siHas[bytes(addr)])
+//@   ensures [slash-only-over-threshold] slashCallN != old(slashCallN) && signedBlocksWindow != 0 ==> exists prev bool :: missedAfter(old(siMissed[bytes(addr)]), prev, signed, go_mod(ctxHeight(ctx), signedBlocksWindow) == 0) > signedBlocksWindow - minSignedPerWindow
+//@   ensures [over-threshold-slashes] old(valHas[bytes(addr)]) && old(siHas[bytes(addr)]) && signedBlocksWindow != 0 && missedAfter(old(siMissed[bytes(addr)]), missedBit(ctx, bytes(addr), ite(go_mod(ctxHeight(ctx), signedBlocksWindow) == 0, 0, old(siIndex[bytes(addr)]))), signed, go_mod(ctxHeight(ctx), signedBlocksWindow) == 0) > signedBlocksWindow - minSignedPerWindow ==> slashCallN == old(slashCallN) + 1
+
+// the relay reward: whatever the servicer's side gets, the fee collector's part of the computed
+// reward is minted to the fee collector whenever it is positive (it is the last mint of the call)
+//@ pure feePoolAddr(c Iface) Bytes
+//@ func (Keeper).getFeePool
+//@   trusted module account lookup through the AuthKeeper interface
+//@   pure_fn
+//@   ensures feePool != nil && accAddr(feePool) == feePoolAddr(ctx)
+//@ func (Keeper).GetRewardCost
+//@   trusted fee lookup through the AuthKeeper interface (claim fee + proof fee)
+//@   modifies bigv
+//@   ensures result.i != nil && fresh(result.i)
+//@   ensures forall p int {bigv[p]} :: isold(p) ==> bigv[p] == old(bigv[p])
+// firstIssueWindow: the historical window (non-custodial + reward scaling active, height <= 69583) in which
+// the code replays the original non-custodial rollout issue
+//@ pure firstIssueWindow(c Iface) bool = ((global(codec.UpgradeFeatureMap)["NCUST"] != 0 && ctxHeight(c) >= global(codec.UpgradeFeatureMap)["NCUST"]) || global(codec.TestMode) <= 0 - 3) && (global(codec.UpgradeFeatureMap)["RSCAL"] != 0 && ctxHeight(c) >= global(codec.UpgradeFeatureMap)["RSCAL"]) && ctxHeight(c) <= 69583
+//@ func (Keeper).RewardForRelaysPerChain
+//@   props C26,C12
+//@   modifies all
+//@   ensures [fee-collector-part-minted] old(valHas[bytes(address)] && !firstIssueWindow(ctx) && feePartOf(ctx, rewardOf(ctx, chain, bigv[relays.i], valStake[bytes(address)])) > 0) ==> singleAmt(bankMintCoins) == old(feePartOf(ctx, rewardOf(ctx, chain, bigv[relays.i], valStake[bytes(address)])))
+//@   ensures [unknown-node-gets-nothing] old(!valHas[bytes(address)] && ((global(codec.UpgradeFeatureMap)["RSCAL"] != 0 && ctxHeight(ctx) >= global(codec.UpgradeFeatureMap)["RSCAL"]) || (global(codec.UpgradeFeatureMap)["NCUST"] != 0 && ctxHeight(ctx) >= global(codec.UpgradeFeatureMap)["NCUST"]) || global(codec.TestMode) <= 0 - 3)) ==> bankMintN == old(bankMintN)
